@@ -24,10 +24,45 @@ type File struct {
 	Enums    []*Enum    `json:"enums"`
 }
 
+// Seg is one path segment: a literal or a {variable}.
+type Seg struct {
+	Var  bool   `json:"var"`
+	Text string `json:"text"`
+}
+
+// PathParts is the parsed form of a path string (TLA+ does no string surgery).
+type PathParts struct {
+	Lead  bool  `json:"lead"`  // starts with "/"
+	Trail bool  `json:"trail"` // ends with "/" (and is longer than "/")
+	Segs  []Seg `json:"segs"`
+}
+
+// ParsePath splits a path template into segments.
+func ParsePath(p string) PathParts {
+	pp := PathParts{Segs: []Seg{}}
+	if p == "" {
+		return pp
+	}
+	pp.Lead = strings.HasPrefix(p, "/")
+	pp.Trail = len(p) > 1 && strings.HasSuffix(p, "/")
+	for _, part := range strings.Split(strings.Trim(p, "/"), "/") {
+		if part == "" {
+			continue
+		}
+		if strings.HasPrefix(part, "{") && strings.HasSuffix(part, "}") {
+			pp.Segs = append(pp.Segs, Seg{Var: true, Text: part[1 : len(part)-1]})
+		} else {
+			pp.Segs = append(pp.Segs, Seg{Text: part})
+		}
+	}
+	return pp
+}
+
 type Service struct {
 	Name     string    `json:"name"`
 	HasBase  bool      `json:"hasBase"`
 	BasePath string    `json:"basePath"`
+	BaseParts PathParts `json:"baseParts"`
 	Headers  []*Header `json:"headers"`
 	Methods  []*Method `json:"methods"`
 }
@@ -38,6 +73,8 @@ type Method struct {
 	Out     string    `json:"out"` // full message name
 	HasCfg  bool      `json:"hasCfg"`
 	Path    string    `json:"path"`
+	Parts   PathParts `json:"parts"`
+	Segs    []Seg     `json:"segs"` // = Parts.Segs (what the rule operators read)
 	Verb    string    `json:"verb"` // "", GET, POST, PUT, DELETE, PATCH
 	Headers []*Header `json:"headers"`
 }
@@ -70,6 +107,7 @@ type Oneof struct {
 
 type Message struct {
 	Name   string     `json:"name"`
+	Full   string     `json:"full"` // full proto name (computed by Normalize when empty)
 	Fields []*Field   `json:"fields"`
 	Oneofs []*Oneof   `json:"oneofs"`
 	Nested []*Message `json:"nested"`
@@ -79,6 +117,7 @@ type Message struct {
 // Field: Card is one of "one" (implicit presence), "opt" (proto3 optional), "rep", "map".
 type Field struct {
 	Name    string `json:"name"`
+	JSON    string `json:"json"` // protoc's lowerCamel json_name (computed by Normalize when empty)
 	Num     int32  `json:"num"`
 	Kind    string `json:"kind"` // scalar kind name, "enum" or "message"
 	Card    string `json:"card"`
@@ -164,14 +203,17 @@ func (s *Schema) Normalize() {
 			if sv.Methods == nil {
 				sv.Methods = []*Method{}
 			}
+			sv.BaseParts = ParsePath(sv.BasePath)
 			for _, m := range sv.Methods {
 				if m.Headers == nil {
 					m.Headers = []*Header{}
 				}
+				m.Parts = ParsePath(m.Path)
+				m.Segs = m.Parts.Segs
 			}
 		}
 		for _, m := range f.Messages {
-			m.normalize()
+			m.normalize(f.Pkg)
 		}
 		for _, e := range f.Enums {
 			if e.Values == nil {
@@ -181,7 +223,8 @@ func (s *Schema) Normalize() {
 	}
 }
 
-func (m *Message) normalize() {
+func (m *Message) normalize(prefix string) {
+	m.Full = join(prefix, m.Name)
 	if m.Fields == nil {
 		m.Fields = []*Field{}
 	}
@@ -195,6 +238,7 @@ func (m *Message) normalize() {
 		m.Enums = []*Enum{}
 	}
 	for _, f := range m.Fields {
+		f.JSON = JSONName(f.Name)
 		if f.Ann.Examples == nil {
 			f.Ann.Examples = []string{}
 		}
@@ -211,7 +255,7 @@ func (m *Message) normalize() {
 		}
 	}
 	for _, n := range m.Nested {
-		n.normalize()
+		n.normalize(m.Full)
 	}
 	for _, e := range m.Enums {
 		if e.Values == nil {
